@@ -52,6 +52,7 @@ def handle (j : Json) : Json :=
     let cDrill := drillNil b
     let cEnc := encodingHeader ps
     let cUnres := unresolved b load
+    let cUnwalked := unwalkedRef b.roots ps
     let cNullW := nullWrapper ps
     let cNullM := nullMember ps
     let cEmpty := emptyCycle b ps
@@ -61,14 +62,14 @@ def handle (j : Json) : Json :=
       (if cKind || (match load with | .panic .assertKind => true | _ => false) then ["KindClash"] else []) ++
       (if cNil || (match load with | .panic .typedNil => true | _ => false) then ["NilTarget"] else []) ++
       (if cDrill || (match load with | .panic .drill => true | _ => false) then ["DrillNil"] else []) ++
-      (if cEnc then ["EncodingHeaderRef"] else []) ++ (if cUnres then ["Unresolved"] else []) ++
+      (if cEnc then ["EncodingHeaderRef"] else []) ++ (if cUnres then ["Unresolved"] else []) ++ (if cUnwalked then ["UnwalkedRef"] else []) ++
       (if cNullW then ["NullWrapper"] else []) ++ (if cNullM then ["NullMember"] else []) ++
       (if cEmpty then ["EmptyCycle"] else []) ++ (if cComp then ["CompositionCycle"] else []) ++
       (if cCb then ["CallbackCycle"] else [])
     let abnormal := dedupStr (
       (if loadPanics || cKind || cNil || cDrill then ["load"] else []) ++
       (if cNullM then ["validate", "post"] else []) ++
-      (if cNullW || cEnc || cUnres then ["post"] else []) ++
+      (if cNullW || cEnc || cUnres || cUnwalked then ["post"] else []) ++
       (if cEmpty then ["crash:IsEmpty"] else []) ++ (if cComp then ["crash:visit"] else []) ++
       (if cCb then ["crash:deref", "crash:validate"] else []))
     let tags := b.table.map (fun r => tgtTag r.2)
